@@ -329,6 +329,16 @@ def fields_in(test, var="self"):
     return sorted({n.attr for n in ast.walk(test) if isinstance(n, ast.Attribute) and isinstance(n.value, ast.Name) and n.value.id == var})
 
 
+def _is_type_guard(test, field) -> bool:
+    if isinstance(test, ast.UnaryOp) and isinstance(test.op, ast.Not):
+        return _is_type_guard(test.operand, field)
+    if isinstance(test, ast.BoolOp):
+        return all(_is_type_guard(v, field) for v in test.values)
+    if isinstance(test, ast.Call) and isinstance(test.func, ast.Name) and test.func.id == "isinstance" and len(test.args) == 2 and not test.keywords:
+        return _field_of(test.args[0]) == field and not any(isinstance(n, ast.Call) for n in ast.walk(test.args[1]))
+    return False
+
+
 def parse_guard(test):
     """-> list of (field, constraint).  Constraints: ('accept', ivset) | ('set', frozenset) |
     ('len', k) | ('len_rel', other, k) | ('each', ivset) | ('cond', field2, value, ivset) | ('type', name)"""
@@ -339,6 +349,10 @@ def parse_guard(test):
         if src == "self.problem is not None and (not isinstance(self.problem, ProblemConfig))":
             return [("problem", ("type", "ProblemConfig|None"))]
         raise AnalysisError(f"unrecognised problem guard `{src}`")
+    # a pure type guard on one field: a boolean combination of isinstance(self.F, T) tests (rejects values of a kind, e.g. real numbers
+    # that are not integers for a size-like field); no numeric constraint
+    if len(fs) == 1 and _is_type_guard(test, fs[0]):
+        return [(fs[0], ("type", ast.unparse(test)))]
     # membership
     if isinstance(test, ast.Compare) and len(test.ops) == 1 and isinstance(test.ops[0], ast.NotIn) and len(fs) == 1:
         coll = test.comparators[0]
@@ -527,6 +541,33 @@ def _norm_c(c):
     return c
 
 
+_ISA = {
+    "int": {"numbers.Number": True, "numbers.Real": True, "numbers.Rational": True, "numbers.Integral": True, "int": True, "float": False, "str": False,
+            "complex": False, "bytes": False, "list": False, "tuple": False, "dict": False},
+}
+
+
+def _type_guard_truth(e, annotation):
+    """truth of a boolean combination of isinstance(self.F, T) tests for a value of the annotated type; None if unknown"""
+    table = _ISA.get(annotation)
+    if table is None:
+        return None
+    if isinstance(e, ast.UnaryOp) and isinstance(e.op, ast.Not):
+        v = _type_guard_truth(e.operand, annotation)
+        return None if v is None else not v
+    if isinstance(e, ast.BoolOp):
+        vs = [_type_guard_truth(v, annotation) for v in e.values]
+        if isinstance(e.op, ast.And):
+            return False if any(v is False for v in vs) else (None if any(v is None for v in vs) else True)
+        return True if any(v is True for v in vs) else (None if any(v is None for v in vs) else False)
+    if isinstance(e, ast.Call) and isinstance(e.func, ast.Name) and e.func.id == "isinstance" and len(e.args) == 2:
+        t = e.args[1]
+        names = [ast.unparse(x) for x in t.elts] if isinstance(t, ast.Tuple) else [ast.unparse(t)]
+        vs = [table.get(n) for n in names]
+        return True if any(v is True for v in vs) else (None if any(v is None for v in vs) else False)
+    return None
+
+
 def _validators(ctx, col):
     total = 0
     for cfg in c10.config_classes(ctx):
@@ -538,9 +579,22 @@ def _validators(ctx, col):
         owner, fn, got, exc_bad, nguards = validator_constraints(ctx, cfg)
         total += nguards
         want = DOMAINS[cfg.name]
+        fields_ = ctx.ct.all_fields(cfg)
         for f in sorted(set(want) | set(got)):
             w = sorted(map(_norm_c, want.get(f, [])), key=repr)
-            g = sorted(map(_norm_c, got.get(f, [])), key=repr)
+            # a pure type guard that is false for every value of the field's annotated type rejects nothing the documented domain contains
+            # (it turns a later failure into an earlier one); one that is true for such values rejects valid parameters and stays
+            gl = []
+            for c_ in got.get(f, []):
+                if c_[0] == "type" and f != "problem" and ("type", c_[1]) not in want.get(f, []):
+                    ann_ = ast.unparse(fields_[f][1].annotation) if f in fields_ else ""
+                    tv_ = _type_guard_truth(ast.parse(c_[1], mode="eval").body, ann_)
+                    if tv_ is None:
+                        raise AnalysisError(f"{cfg.name}.{f}: type guard `{c_[1]}` on a field annotated `{ann_}`: cannot tell whether it rejects valid values")
+                    if tv_ is False:
+                        continue
+                gl.append(c_)
+            g = sorted(map(_norm_c, gl), key=repr)
             ok = w == g
             col.add("R20.3", f"{cfg.name}.{f}", owner.module.relpath, fn.lineno, ok,
                     f"accepts exactly {'; '.join(_fmt_c(c) for c in want.get(f, []))}" if ok else
